@@ -75,6 +75,58 @@ class Ctx:
             f = f.parent
         return f.name + (".setter" if f.kind == "setter" else "")
 
+    # -------------------------------------------------------------- call graph
+    def callers(self, f: FuncInfo) -> List[Tuple[FuncInfo, Node]]:
+        cg = self.__dict__.get("_callers")
+        if cg is None:
+            cg = {}
+            for g in self.prog.all_functions():
+                for n in self.nodes(g, lambda n: n.op in ("call", "enter", "exit_ctx")):
+                    cal = n.callee
+                    if cal is not None and cal.kind == "pkg":
+                        for t in cal.targets:
+                            cg.setdefault(t.qual, []).append((g, n))
+                    elif cal is not None and cal.kind == "ctor" and cal.cls is not None:
+                        init = self.prog.lookup(cal.cls, "__init__")
+                        if init is not None:
+                            cg.setdefault(init.qual, []).append((g, n))
+            self._callers = cg
+        return cg.get(f.qual, [])
+
+    ANCHOR_NAMES = frozenset({
+        "__init__", "pool_size.setter", "pool_size", "lock", "unlock", "_check_start", "_task_cancellation", "_task_ending", "_task_wrapper",
+        "_start_task", "_get_running_task", "cancel", "_cancel_group_meta_tasks", "_cancel_and_remove_all_from_group", "cancel_group",
+        "cancel_all", "_pop_ended_meta_tasks", "flush", "gather_and_close", "until_closed", "_apply_spawner", "apply",
+        "_get_map_end_callback", "_arg_consumer", "_map", "map", "starmap", "doublestarmap", "_start_num", "start", "stop", "stop_all",
+        "get_group_ids", "_generate_group_name", "is_full", "num_running", "num_cancelled", "num_ended", "is_locked",
+    })
+
+    def hosts(self, f: FuncInfo) -> Set[str]:
+        """Names of the anchored functions on whose behalf `f` runs: f itself if anchored, else its
+        (transitive) callers up to the first anchored function."""
+        out: Set[str] = set()
+        seen: Set[str] = set()
+        work = [f]
+        while work:
+            g = work.pop()
+            if g.qual in seen:
+                continue
+            seen.add(g.qual)
+            nm = self.fname(g)
+            if nm in self.ANCHOR_NAMES and self.in_pool(g):
+                out.add(nm)
+                continue
+            cs = self.callers(g if g.parent is None else g)
+            if g.parent is not None:
+                # nested function: runs on behalf of whoever the enclosing function serves
+                work.append(g.parent)
+                continue
+            if not cs:
+                out.add(nm)
+            for c, _ in cs:
+                work.append(c)
+        return out
+
     # ----------------------------------------------------------------- effects
     def effects(self, fields: Optional[Sequence[str]] = None, kinds: Optional[Sequence[str]] = None,
                 funcs: Optional[Iterable[FuncInfo]] = None, exact_paths: Optional[Sequence[str]] = None) -> List[Effect]:
